@@ -93,22 +93,21 @@ Theorem C11_one_peer_per_store :
   forall xs s tr, run_steps s xs = Some tr -> NoDup (stores_of (rs_peers s)) -> Forall (fun s' => NoDup (stores_of (rs_peers s'))) tr.
 Proof. exact run_steps_nodup. Qed.
 
-(* the scatter leader clause is NOT provable for the unchanged code: selectAvailableLeaderStores looks only at the
-   leader counters and at the engine label, and the operator is built with EnableForceTargetLeader; the driver
-   exhibits leaders moved to reject-leader stores (finding C11:scatter:leader-to-store-rejecting-leaders) *)
-Definition C11_scatter_leader_accepts_leaders_full : Prop :=
+(* the scatter leader: whenever some target store without an engine label accepts leaders (no reject-leader label property),
+   the store chosen for the leader is such a store (code after the fix "region scatter must not move the leader to a store
+   that rejects leaders"; before it the choice ignored the property while the operator is built with a forced leader).
+   If EVERY ordinary target store rejects leaders (e.g. a one-replica region scattered into such a zone) there is no choice. *)
+Theorem C11_scatter_leader_accepts_leaders :
   forall stores grp ldr targets l,
-    In l (leader_choices stores grp ldr targets) -> l <> 0 ->
-    exists s, find_store stores l = Some s /\ s_reject s = false.
-Theorem C11_scatter_leader_accepts_leaders_refuted : ~ C11_scatter_leader_accepts_leaders_full.
-Proof.
-  intros H.
-  set (s := Store 1 SUp false false false false false false false false false true []).
-  destruct (H [s] 1 [] [(1, Voter)] 1) as (x & Hx & Hr).
-  - vm_compute. left; reflexivity.
-  - discriminate.
-  - vm_compute in Hx. inversion Hx; subst. discriminate.
-Qed.
+    In l (leader_choices stores grp ldr targets) ->
+    accepting stores (ordinary_targets stores targets) <> [] ->
+    In l (map fst targets) /\ exists s, find_store stores l = Some s /\ s_reject s = false /\ lv_empty (engine_of s) = true.
+Proof. exact scatter_leader_accepts_leaders. Qed.
+
+Example C11_leader_reject_regression :
+  leader_choices [Store 1 SUp false false false false false false false false false true [];
+                  Store 2 SUp false false false false false false false false false false []] 1 [] [(1, Voter); (2, Voter)] = [2].
+Proof. exact leader_reject_regression. Qed.
 
 (* regression / non-vacuity: the S12 history (counters {1:1, 3:1}, region on 1,2,3) now keeps all three peers *)
 Example C11_s12_regression :
@@ -124,4 +123,4 @@ Print Assumptions C11_move_preserves_roles.
 Print Assumptions C11_leader_target_good.
 Print Assumptions C11_forced_leader_target.
 Print Assumptions C11_one_peer_per_store.
-Print Assumptions C11_scatter_leader_accepts_leaders_refuted.
+Print Assumptions C11_scatter_leader_accepts_leaders.
